@@ -322,8 +322,11 @@ class CrashRun:
         # the history class the violation signature carries: which phase was
         # killed - "reap-killed" whenever a reap died (victim or recovery step),
         # because that is where a sampler's clean-up can be interrupted
-        what = "{}:{}".format(self.role or "raw",
-                              "reap-killed" if (killed_reap or self.victim == "reap") else self.victim)
+        if getattr(self, "fault", "kill") == "enospc" and not killed_reap:
+            what = "{}:{}-hit-full-disk".format(self.role or "raw", self.victim)
+        else:
+            what = "{}:{}".format(self.role or "raw", "reap-killed"
+                                  if (killed_reap or self.victim == "reap") else self.victim)
         if res == ("delivered",):
             crop = val = None
         else:
@@ -417,13 +420,26 @@ def run_c10(ctx):
     copy_tree(w.root, r.snap)
     body = r.victim_body(victim)
     # 1. fault-free execution of the victim: count its interposed operations
+    kinds = []
+
+    def record(world, actor, kind_, path, detail):
+        if actor.name.startswith("victim-dry"):
+            kinds.append(kind_)
+
+    w.observers.append(record)
     with m.actor("victim-dry") as a:
         try:
             body()
         except Exception as e:
             raise Violation("victim-raised-fault-free", "{}: {}: {}".format(
                 victim, type(e).__name__, short(str(e), 200)), site=xyz_site(e))
+    w.observers.remove(record)
     K = a.nops
+    # fault kind of this scenario: a kill before operation k (3 of 4 scenarios), or a
+    # full disk - ENOSPC from the k-th operation if it is a kernel write (the process
+    # then fails with an exception, or swallows it, but is not killed)
+    fault = "enospc" if t.flag(1, 4, "fault-kind") else "kill"
+    r.fault = fault
     ctx.stats["sites"] += K
     if victim in ("sow", "resow"):
         # needed by the oracles when the victim is the first sow
@@ -434,6 +450,8 @@ def run_c10(ctx):
     only = ctx.params.get("only_site")
     if only is not None:
         sites = [only]
+    elif fault == "enospc":
+        sites = [i + 1 for i, kd in enumerate(kinds) if kd == "write"][:MAX_SITES]
     else:
         cap = MAX_SITES * (3 if ctx.params.get("tier") == "thorough" else 1)
         if K <= cap:
@@ -442,23 +460,45 @@ def run_c10(ctx):
             step = K / float(cap)
             sites = sorted({1 + int(i * step) for i in range(cap)} | {K})
     ctx.stats["sites-enumerated"] += len(sites)
-    ctx.t("crash sites", K, "enumerated", len(sites))
+    ctx.t("fault", fault, "- sites", K, "enumerated", len(sites))
+    ctx.stats["fault-" + fault] += 1
+    import errno as _errno
+    import traceback as _tb
+
     for k in sites:
         restore_tree(r.snap, w.root)
-        if victim in ("sow", "resow"):
-            pass
-        with m.actor("victim", kill_at=k) as a:
-            try:
-                body()
-            except Exception as e:
-                raise Violation("victim-raised-before-kill", "{} site {}: {}: {}".format(
-                    victim, k, type(e).__name__, short(str(e), 200)), site=xyz_site(e))
-        if not a.dead:
-            ctx.stats["site-beyond-end"] += 1
-            continue
-        last = w.log[-3][1] if len(w.log) >= 3 else "?"
-        tag = "{} killed at site {}/{}".format(victim, k, K)
-        ctx.stats["crashes"] += 1
+        if fault == "enospc":
+            fired0 = sum(v for kk, v in w.fired.items() if kk.startswith("io-error"))
+            swallowed = True
+            with m.actor("victim") as a:
+                a.err_at = (k, _errno.ENOSPC)
+                try:
+                    body()
+                except Exception as e:  # the process failed with an error: fine
+                    _tb.clear_frames(e.__traceback__)
+                    swallowed = False
+            if sum(v for kk, v in w.fired.items() if kk.startswith("io-error")) == fired0:
+                ctx.stats["site-beyond-end"] += 1
+                continue
+            if swallowed:
+                ctx.stats["disk-full-error-not-propagated"] += 1
+            last = "write"
+            tag = "{} hit a full disk at its write {}/{}{}".format(
+                victim, k, K, " (and returned normally)" if swallowed else "")
+            ctx.stats["disk-full-failures"] += 1
+        else:
+            with m.actor("victim", kill_at=k) as a:
+                try:
+                    body()
+                except Exception as e:
+                    raise Violation("victim-raised-before-kill", "{} site {}: {}: {}".format(
+                        victim, k, type(e).__name__, short(str(e), 200)), site=xyz_site(e))
+            if not a.dead:
+                ctx.stats["site-beyond-end"] += 1
+                continue
+            last = w.log[-3][1] if len(w.log) >= 3 else "?"
+            tag = "{} killed at site {}/{}".format(victim, k, K)
+            ctx.stats["crashes"] += 1
         ctx.distinct.add(crash_state_hash(w.root, victim, r.role))
         try:
             _after_crash(ctx, r, victim, tag, k)
@@ -467,7 +507,7 @@ def run_c10(ctx):
             v.details["reduce"] = {"only_site": k}
             v.details["site"] = k
             v.details["sites"] = K
-            ctx.t("VIOLATION at crash site", k, "of", K, "(event before the kill: {})".format(last))
+            ctx.t("VIOLATION at fault site", k, "of", K, "(", fault, "; event before: {})".format(last))
             raise
     ctx.nontrivial = True
     ctx.key = repr((victim, r.role, m.sc.N, getattr(m, "B", None), m.sc.kind, K))
